@@ -522,7 +522,7 @@ class Check(CheckBase):
             "probe program (size, whole content, reads across the first / middle / last sector boundaries); seven real-size stacks (40 raw sectors read with single requests of 32..80 KiB, bare and under a window; 20 000-byte "
             "reversed window, 25 000-byte offset window, 6 x 8192 chained file, the Roland shape reversed-over-window-over-4 x 9216 "
             "chained file, 12 raw sectors) probed with runs of SMALL consecutive reads across every multiple of 4096 and of the sector size, and with LONG reads (4096..20 000 bytes and to the end: several internal buffers, two and "
-            "more whole sectors inside one read) from 7 start positions; 27 configurations of TWO "
+            "more whole sectors inside one read) from 7 start positions; 23 configurations of TWO "
             "views over one shared parent, over two parents with different bytes at the same addresses, or one over the other (two windows, wrapper + window, two chained files of one partition window, the same file "
             "twice, two nested sample stacks, reversed + forward window over one chained file, two windows over one raw-sector view): "
             "BFS over the union of both views' alphabets plus direct seeks / reads on the shared parent, product state, to depth 3 "
